@@ -225,3 +225,36 @@ func vfC20_Shutdown() {
 	vfAssert(has, "a change acknowledged before shutdown began is written before the service stops")
 	vfReach("end")
 }
+
+// vfC08_Concurrent: two management operations in two goroutines (every interleaving at
+// lock-operation granularity, bounded preemptions); afterwards the three views must agree.
+//   mode 0: add(a,K1) || delete(a)      mode 1: add(a,K1) || update(a,K2) (a exists with K3)
+//   mode 2: update(a,K1) || delete(a) (a exists with K3)
+func vfC08_Concurrent() {
+	mode := vfCase("mode")
+	path := vfStorePath()
+	k1, k2, k3 := vfKey("K1"), vfKey("K2"), vfKey("K3")
+	vfAssume(!bytes.Equal(k1, k2) && !bytes.Equal(k1, k3) && !bytes.Equal(k2, k3))
+	if mode == 0 {
+		vfWriteStore(path, nil, nil)
+	} else {
+		vfWriteStore(path, []string{"a"}, [][]byte{k3})
+	}
+	w, err := vfNewWorld(path)
+	vfAssert(err == nil, "store loads")
+	vfSchedule(vfCase("preempt"))
+	switch mode {
+	case 0:
+		vfGo("t1", func() { _ = w.s.AddCredential("a", k1) })
+		vfGo("t2", func() { _ = w.s.DeleteCredential("a") })
+	case 1:
+		vfGo("t1", func() { _ = w.s.AddCredential("a", k1) })
+		vfGo("t2", func() { _ = w.s.UpdateCredential("a", k2) })
+	default:
+		vfGo("t1", func() { _ = w.s.UpdateCredential("a", k1) })
+		vfGo("t2", func() { _ = w.s.DeleteCredential("a") })
+	}
+	vfJoin()
+	vfViewsAgree(w, [][]byte{k1, k2, k3})
+	vfReach("end")
+}
